@@ -30,7 +30,7 @@ LEVEL_TEXT = (
     "dependents have all finished has already been released, at every moment (released_promptly); on normal return the cache holds "
     "exactly the requested keys and every other visited key is released (no_leak). The *_full versions hold for the state start_state_from_dask really builds (Sched.startState_ok).")
 LEVEL_NOTE = (
-    "A user-supplied shared `cache=` mapping and `delete=False` are outside the model (cache starts empty, "
+    "The theorems are for the empty start cache (a caller-supplied `cache=` is tied to the model in C01 only); `delete=False` is outside the model (cache starts empty, "
     "delete=True as get_async calls it). OS thread timing not modelled (adversarial completion order is). Trusted: "
     "Lean kernel + standard axioms; the harness.")
 TECHNIQUE = "Lean 4 invariant proof over an adversarial state machine + differential state-trace and function-level correspondence"
